@@ -181,9 +181,17 @@ type Sim struct {
 	MTIDs      map[string][]string // chain/denom -> mt ids
 	// AllowSlashClasses etc. are set by properties that probe known findings.
 	ClassAlphabet int
-	// Known collects violations that match known-finding signatures (search continues).
-	Tainted bool
+	// Known: "property:signature" entries of recorded findings; a violation matching one is counted in
+	// KnownSeen and the search continues behind it.
+	Known        map[string]bool
+	KnownSeen    map[string]int
+	KnownExample map[string]string
+	Tainted      bool
+	// ForceNoRelay makes every send use a direct route (metamorphic twin of a relayed scenario).
+	ForceNoRelay bool
 }
+
+type abciEvent = abci.Event
 
 type sentMsg struct {
 	Chain string
@@ -229,7 +237,7 @@ func (s *Sim) otherChain(c *world.Chain, i int) *world.Chain {
 
 // relayChoice: 0 => none; otherwise a chain different from src and dst (if one exists).
 func (s *Sim) relayChoice(src, dst string, i int) string {
-	if i <= 0 {
+	if i <= 0 || s.ForceNoRelay {
 		return ""
 	}
 	var cands []string
@@ -250,6 +258,17 @@ func (s *Sim) record(st *Step) *Violation {
 	s.Trace = append(s.Trace, st.Describe())
 	for _, ck := range s.Checkers {
 		if v := ck(s, st); v != nil {
+			if s.Known[v.Property+":"+v.Sig] {
+				if s.KnownSeen == nil {
+					s.KnownSeen = map[string]int{}
+					s.KnownExample = map[string]string{}
+				}
+				s.KnownSeen[v.Sig]++
+				if _, ok := s.KnownExample[v.Sig]; !ok {
+					s.KnownExample[v.Sig] = v.Msg
+				}
+				continue
+			}
 			s.Viol = v
 			return v
 		}
@@ -393,6 +412,10 @@ func (s *Sim) Apply(op Op) *Violation {
 		return s.opFlow(op)
 	case "hostile":
 		return s.opHostile(op)
+	case "alterx":
+		return s.opAlterX(op)
+	case "burst":
+		return s.opBurst(op)
 	case "round":
 		return s.opRound(op)
 	case "cleanflow":
@@ -1495,6 +1518,31 @@ func LabelFailureStage(s *Sim, st *Step) *Violation {
 		s.Label("stage:application")
 	default:
 		s.Label("stage:validation")
+	}
+	return nil
+}
+
+
+// opBurst sends 9-14 mock packets on one channel and delivers each of them (no acks), so that
+// two-digit sequences and many simultaneously pending packets occur. A=src, B=dst, C=relay, D=count.
+func (s *Sim) opBurst(op Op) *Violation {
+	n := 9 + mod(op.D, 6)
+	for i := 0; i < n; i++ {
+		before := len(s.Packets)
+		if v := s.opMockSend(Op{K: "mocksend", A: op.A, B: op.B, C: op.C, D: i}); v != nil {
+			return v
+		}
+		if len(s.Packets) == before {
+			return nil
+		}
+		r := s.Packets[len(s.Packets)-1]
+		for _, on := range []string{r.P.RelayChain, r.P.DestinationChain} {
+			if on != "" && s.canRecv(r, on) {
+				if v := s.doRecv(op, r, s.W.Chains[on], "", 0, 0); v != nil {
+					return v
+				}
+			}
+		}
 	}
 	return nil
 }
